@@ -103,14 +103,14 @@ def answer(tb, method, target, hdrs):
     if rng is None:
         if size < 0 or size > (1 << 22): return ("unknown",)
         return ("resp", send_response(200, b"OK", size) + gen_bytes(0, size))
-    m = re.match(rb"^bytes=(\d{1,9})-(\d{1,9})$", rng)
+    m = re.match(rb"^bytes=(\d{1,30})-(-?\d{1,30})$", rng)
     if not m:
         if re.match(rb"^bytes=[a-z]+-[a-z]*$", rng) or re.match(rb"^bytes=\d{1,9}-[a-z]*$", rng):
             return ("close",)          # not a byte range at all: malformed input
         return ("unknown",)
     a, b = int(m.group(1)), int(m.group(2))
-    if b < a:
-        return ("unknown",)
+    if b < a or b >= (1 << 63) - 1:
+        return ("close",)              # reversed / negative / absurd range: not satisfiable, malformed input
     n = b - a + 1
     if n > (1 << 22): return ("unknown",)
     extra = b"Content-Range: bytes %d-%d/%d\r\n" % (a, b, n)
